@@ -311,6 +311,12 @@ def rule_abseps(prog: Program, modules: Optional[Set[str]] = None) -> List[Insta
                 elif not classes:
                     why = "receiver class unknown"
             cid = f"{fi.qual}#abs-eps:{short(n, 40)}"
+            if n.attr in ("is_rectilinear", "is_conformal", "is_orthonormal"):
+                # whatever the receiver: is_rectilinear is ALSO true for quarter turns (a and e ~ 0), is_conformal /
+                # is_orthonormal allow rotations - none of them means "scale and translation only"
+                out.append(Instance("R-ABSEPS", cid, BAD,
+                                    f"`{short(n, 50)}`: the affine library's {n.attr} is not the repository's 'no rotation / shear' test (is_affine_st): is_rectilinear is true for 90/270 degree turns too, and all three use the absolute epsilon 1e-5", fi.where(n)))
+                continue
             if world:
                 out.append(Instance("R-ABSEPS", cid, BAD,
                                     f"`{short(n, 50)}` applies the affine library's absolute-epsilon (1e-5) predicate to a pixel->world affine: sub-1e-5-degree grids and 90-degree rotated grids are misclassified", fi.where(n)))
@@ -722,4 +728,190 @@ def rule_precision(prog: Program, modules: Optional[Set[str]] = None) -> List[In
                     out.append(Instance("R-PRECISION", f"{fi.qual}#single:{short(n, 40)}", BAD,
                                         f"`{short(n, 60)}` generates coordinates in {txt}: 24-bit mantissa, world coordinates of UTM size are rounded to 0.5-2 m and the regions derived from them shift by whole pixels on fine grids", fi.where(n)))
     out.append(Instance("R-PRECISION", "single-scan", OK, f"{n_seen} single-precision coordinate arrays on the planning path (roi, geobox, overlap, gcp)", "", nontrivial=False))
+    return out
+
+
+# ---------------------------------------------------------------------------------------------
+# R-SHAREDMUT / R-ITERTWICE / R-EPSGPROXY: three more slip classes seen in round 3
+# ---------------------------------------------------------------------------------------------
+SHAREDMUT_EXEMPT = {
+    "cog._s3:_mpu_local_lock": "process-wide lock registry, written with setdefault (checked by R-LOCK LOCKATOMIC)",
+}
+
+
+def _module_mutables(mi) -> Dict[str, int]:
+    muts: Dict[str, int] = {}
+    for st in mi.tree.body:
+        tg = st.targets[0] if isinstance(st, ast.Assign) and len(st.targets) == 1 else st.target if isinstance(st, ast.AnnAssign) and st.value is not None else None
+        v = getattr(st, "value", None)
+        if isinstance(tg, ast.Name) and (isinstance(v, (ast.Dict, ast.List, ast.Set)) or (isinstance(v, ast.Call) and (getattr(v.func, "id", None) or getattr(v.func, "attr", "")) in ("dict", "list", "set", "defaultdict", "OrderedDict"))):
+            muts[tg.id] = st.lineno
+    return muts
+
+
+MUTATORS = {"update", "append", "add", "setdefault", "pop", "clear", "extend", "insert", "remove", "popitem"}
+
+
+def rule_sharedmut(prog: Program, modules: Optional[Set[str]] = None) -> List[Instance]:
+    """A module-level dict/list that a function mutates, aliases-and-returns or fills as an ad-hoc cache is
+    state shared between all calls in the process: options of one call leak into the next, a cache entry
+    built for one argument is served for another. Accepted: the confirmed registries in the table, and an
+    ad-hoc cache whose key covers everything the stored value is computed from."""
+    from ..astutil import Origins
+
+    out: List[Instance] = []
+    for mname in sorted(prog.modules):
+        if modules is not None and mname not in modules:
+            continue
+        mi = prog.modules[mname]
+        muts = _module_mutables(mi)
+        if not muts:
+            continue
+        for fi in prog.all_functions({mname}):
+            aliases = {n.targets[0].id: n.value.id for n in walk_own(fi.node) if isinstance(n, ast.Assign) and len(n.targets) == 1 and isinstance(n.targets[0], ast.Name) and isinstance(n.value, ast.Name) and n.value.id in muts}
+            names = set(muts) | set(aliases)
+            hits = []
+            cache_stores = []
+            for n in walk_own(fi.node):
+                if isinstance(n, ast.Call) and isinstance(n.func, ast.Attribute) and isinstance(n.func.value, ast.Name) and n.func.value.id in names and n.func.attr in MUTATORS:
+                    hits.append((n, f".{n.func.attr}()"))
+                if isinstance(n, (ast.Assign, ast.AugAssign)):
+                    for t in (n.targets if isinstance(n, ast.Assign) else [n.target]):
+                        for tt in ([t] + (list(t.elts) if isinstance(t, ast.Tuple) else [])):
+                            if isinstance(tt, ast.Subscript) and isinstance(tt.value, ast.Name) and tt.value.id in names:
+                                cache_stores.append((n, tt))
+                if isinstance(n, ast.Return) and isinstance(n.value, ast.Name) and n.value.id in names:
+                    hits.append((n, "returned to the caller"))
+            if not hits and not cache_stores:
+                continue
+            key = next((k for k in SHAREDMUT_EXEMPT if fi.qual.startswith(k)), None)
+            if key is not None:
+                out.append(Instance("R-SHAREDMUT", f"{fi.qual}#module-state", INFO, f"table: {SHAREDMUT_EXEMPT[key]}", fi.where(), nontrivial=False))
+                continue
+            for n, how in hits:
+                out.append(Instance("R-SHAREDMUT", f"{fi.qual}#module-state:{short(n, 30)}", BAD,
+                                    f"`{short(n, 60)}`: a module-level container is {how if how.startswith('returned') else 'mutated with ' + how} inside a function: what one call puts there is seen by every later call in the process", fi.where(n)))
+            # ad-hoc cache: D[key] = value - the key must cover what the value is computed from
+            if cache_stores and not hits:
+                org = Origins(fi)
+                params = [p for p in fi.param_names() if p not in ("self", "cls")]
+                for n, tt in cache_stores:
+                    keyexpr = tt.slice
+                    kdefs = [keyexpr] + ([v for _, v in org.defs.get(keyexpr.id, [])] if isinstance(keyexpr, ast.Name) else [])
+                    whole = set()      # parameters that appear whole in the key
+                    partial_ = set()   # parameters of which only attributes appear
+                    for kd in kdefs:
+                        for x in ast.walk(kd):
+                            if isinstance(x, ast.Name) and x.id in params:
+                                par = parent(x)
+                                if isinstance(par, ast.Attribute) and par.value is x:
+                                    partial_.add(x.id)
+                                else:
+                                    whole.add(x.id)
+                    vnames = set()
+                    val = n.value
+                    for x in ast.walk(val):
+                        if isinstance(x, ast.Name) and x.id in params:
+                            par = parent(x)
+                            if not (isinstance(par, ast.Attribute) and par.value is x):
+                                vnames.add(x.id)
+                    missing = sorted(vnames - whole)
+                    out.append(Instance("R-SHAREDMUT", f"{fi.qual}#adhoc-cache:{short(tt, 30)}", BAD if missing else OK,
+                                        f"`{short(n, 60)}` caches a value computed from {sorted(vnames)} under a key that holds only selected attributes of {missing}: two arguments that agree on those attributes but differ elsewhere share the entry" if missing
+                                        else f"ad-hoc cache key covers every parameter the stored value is computed from ({sorted(vnames)})", fi.where(n)))
+    return out
+
+
+def rule_itertwice(prog: Program, modules: Optional[Set[str]] = None) -> List[Instance]:
+    """A parameter annotated Iterable[...] / Iterator[...] may be a generator. Consuming it twice (two loops /
+    comprehensions / consuming calls) silently sees nothing the second time: a check done in the second pass
+    (CRS agreement after the geometries were already combined) never runs."""
+    out: List[Instance] = []
+    for fi in prog.all_functions(modules):
+        for p in fi.params():
+            if p.annotation is None:
+                continue
+            a = short(p.annotation, 200).replace("typing.", "")
+            if not (a.startswith("Iterable[") or a.startswith("Iterator[") or a in ("Iterable", "Iterator")):
+                continue
+            # rebinding to a list/tuple first makes it safe
+            rebound = any(isinstance(n, ast.Assign) and any(isinstance(t, ast.Name) and t.id == p.arg for t in n.targets) for n in walk_own(fi.node))
+            uses = []
+            for n in ast.walk(fi.node):
+                if isinstance(n, ast.Name) and n.id == p.arg and isinstance(n.ctx, ast.Load):
+                    par = parent(n)
+                    consuming = (isinstance(par, ast.comprehension) and par.iter is n) or (isinstance(par, ast.For) and par.iter is n) or \
+                        (isinstance(par, ast.Call) and n in par.args and call_name(par) not in ("isinstance", "len", "iter", "type", "id")) or (isinstance(par, ast.Starred))
+                    if consuming:
+                        uses.append(n)
+            if len(uses) < 2 and not (len(uses) == 1 and False):
+                continue
+            if rebound:
+                continue
+            # uses on exclusive branches of one if/else are fine: require two uses neither of which is inside
+            # a different arm of the same If
+            def arm_path(n):
+                path = []
+                c, q = n, parent(n)
+                while q is not None and q is not fi.node:
+                    if isinstance(q, ast.If):
+                        path.append((id(q), "body" if any(c is x or any(c is y for y in ast.walk(x)) for x in q.body) else "else"))
+                    c, q = q, parent(q)
+                return path
+            paths = [dict(arm_path(u)) for u in uses]
+            exclusive = all(any(k in p2 and p1[k] != p2[k] for k in p1) for i, p1 in enumerate(paths) for p2 in paths[i + 1:])
+            if exclusive:
+                continue
+            out.append(Instance("R-ITERTWICE", f"{fi.qual}#{p.arg}", BAD,
+                                f"`{p.arg}` is declared {a.split('[')[0]} but consumed {len(uses)} times ({', '.join(short(parent(u), 30) for u in uses[:3])}): for a generator the later pass sees nothing, so whatever it was meant to check or compute silently does not happen", fi.where(uses[1])))
+    out.append(Instance("R-ITERTWICE", "itertwice-scan", OK, "no Iterable/Iterator parameter is consumed twice", "", nontrivial=False))
+    return out
+
+
+def rule_epsg_proxy(prog: Program, modules: Optional[Set[str]] = None) -> List[Instance]:
+    """`a.epsg == b.epsg` is not CRS equality: every CRS without an EPSG code has epsg None, so two different
+    custom / ESRI / proj-string CRSs compare 'equal' and the re-projection or the mismatch error is skipped."""
+    out: List[Instance] = []
+    n_seen = 0
+    for fi in prog.all_functions(modules):
+        if fi.cls is not None and fi.cls.name == "CRS":
+            continue  # the CRS class itself may look at its own code
+        for n in walk_own(fi.node):
+            if isinstance(n, ast.Compare) and len(n.ops) == 1 and isinstance(n.ops[0], (ast.Eq, ast.NotEq)):
+                l, r = n.left, n.comparators[0]
+                if all(isinstance(x, ast.Attribute) and x.attr in ("epsg", "_epsg") for x in (l, r)):
+                    n_seen += 1
+                    out.append(Instance("R-EPSGPROXY", f"{fi.qual}#epsg-compare:{short(n, 40)}", BAD,
+                                        f"`{short(n, 60)}` compares EPSG codes in place of the CRSs: two different CRSs that both lack a code (None == None) count as the same and the re-projection / mismatch error is skipped", fi.where(n)))
+    out.append(Instance("R-EPSGPROXY", "epsg-compare-scan", OK, f"{n_seen} comparisons of two .epsg attributes outside the CRS class", "", nontrivial=False))
+    return out
+
+
+
+def rule_rotation_tolerance(prog: Program, modules: Optional[Set[str]] = None) -> List[Instance]:
+    """is_affine_st(A, tol) decides 'no rotation / shear' with tol = 1e-10 by default. A call site that passes a
+    larger *constant* relaxes it: grids rotated by less than that are treated as axis aligned / scale+translation
+    (coordinates without rotation, paste instead of warp)."""
+    out: List[Instance] = []
+    default = 1e-10
+    try:
+        f = prog.func("math:is_affine_st")
+        for p_, d_ in zip(reversed(f.args.args), reversed(f.args.defaults)):
+            if p_.arg == "tol" and isinstance(d_, ast.Constant):
+                default = float(d_.value)
+    except Exception:
+        pass
+    for fi in prog.all_functions(modules):
+        for n in walk_own(fi.node):
+            if isinstance(n, ast.Call) and call_name(n) == "is_affine_st":
+                tol = next((k.value for k in n.keywords if k.arg == "tol"), n.args[1] if len(n.args) > 1 else None)
+                if tol is None:
+                    out.append(Instance("R-ROTTOL", f"{fi.qual}#rot-tol:{short(n, 30)}", OK, "rotation test with its default tolerance", fi.where(n)))
+                elif isinstance(tol, ast.Constant) and isinstance(tol.value, (int, float)):
+                    loose = float(tol.value) > default * 10
+                    out.append(Instance("R-ROTTOL", f"{fi.qual}#rot-tol:{short(n, 30)}", BAD if loose else OK,
+                                        f"`{short(n, 50)}` relaxes the rotation/shear tolerance from {default:g} to {tol.value:g}: grids rotated by less than that (res*sin(angle) below it) are treated as axis aligned" if loose
+                                        else "rotation test with a tolerance no looser than the default", fi.where(n)))
+                else:
+                    out.append(Instance("R-ROTTOL", f"{fi.qual}#rot-tol:{short(n, 30)}", INFO, f"tolerance `{short(tol)}` is not a constant", fi.where(n), nontrivial=False))
     return out
